@@ -101,28 +101,46 @@ def rev4 : List UInt8 → List UInt8
 def View.rev (v : View) : View :=
   { v with yiaddr := rev4 v.yiaddr, serverId := v.serverId.map rev4, router := v.router.map rev4, dns := rev4 v.dns }
 
-/-- the checks `malformed-reply` makes on a transmitted frame `g` for the request `f` parsed as `p`
+/-- the checks `malformed-reply` makes on a transmitted frame `g` for the request `f` parsed as `p`, given the
+    server MAC (`server_config.server_mac`) and the server address bytes as the cache holds them
     (`none` = well-formed; otherwise the name of the first failing check):
-    frame length = L2 header + `tot_len`; `udp.len + 20 = tot_len`; EtherType and VLAN tags as received; IP
-    version/IHL/TOS and protocol as received (a request the program accepts has IHL 5 and protocol 17; the version
-    nibble and the fragment field are copied unchecked); the header passes the receiver's checksum test; UDP source
-    port 67, destination port 68 (67 when relayed); BOOTP op = BOOTREPLY; xid, chaddr and magic cookie as received;
-    the options are a TLV sequence whose END option is the last byte of the frame; `tot_len` = 20 + 8 + 240 + options. -/
-def replyDefect (f g : Frame) (p : Pkt) : Option String :=
+    * L2: destination = the relay's MAC (the request's source) when relayed, else broadcast if the BROADCAST flag is
+      set or ciaddr is 0, else chaddr; source = the server MAC; EtherType and VLAN tags as received;
+    * IP: version/IHL/TOS and protocol as received (a request the program accepts has IHL 5 and protocol 17; the version
+      nibble and the id/fragment field are copied unchecked); TTL 64; source = the server address, destination =
+      giaddr when relayed, else 255.255.255.255; frame length = L2 header + `tot_len`; the header passes the receiver's
+      checksum test;
+    * UDP: source port 67, destination port 68 (67 when relayed), `udp.len + 20 = tot_len`, checksum 0 (none);
+    * BOOTP: op = BOOTREPLY; htype/hlen, xid/secs/flags/ciaddr, giaddr/chaddr and the magic cookie as received; hops 0;
+      siaddr = the server address; sname and file zeroed;
+    * options: a TLV sequence whose END option is the last byte of the frame; `tot_len` = 20 + 8 + 240 + options. -/
+def replyDefect (f g : Frame) (p : Pkt) (srvMac sip : List UInt8) : Option String :=
   let ipLen := be16At g (p.ipOff + 2)
   let optsArea := g.drop (p.dhcpOff + 240)
-  let relayed := bytesAt f (p.dhcpOff + 24) 4 != [0, 0, 0, 0]
+  let giaddr := bytesAt f (p.dhcpOff + 24) 4
+  let relayed := giaddr != [0, 0, 0, 0]
   if g.length != 14 + p.vlanOff + ipLen then some "frame-length-vs-tot_len"
   else if be16At g (p.udpOff + 4) + 20 != ipLen then some "udp-len-vs-tot_len"
+  else if bytesAt g 0 6 != (if relayed then bytesAt f 6 6 else l2Dest f p) then some "eth-dst"
+  else if bytesAt g 6 6 != srvMac then some "eth-src"
   else if bytesAt g 12 (p.ipOff - 12) != bytesAt f 12 (p.ipOff - 12) then some "ethertype-or-tags-changed"
   else if bytesAt g p.ipOff 2 != bytesAt f p.ipOff 2 then some "ip-version-ihl-tos"
+  else if bytesAt g (p.ipOff + 8) 1 != [64] then some "ip-ttl"
   else if bytesAt g (p.ipOff + 9) 1 != bytesAt f (p.ipOff + 9) 1 then some "ip-protocol"
+  else if bytesAt g (p.ipOff + 12) 4 != sip then some "ip-saddr"
+  else if bytesAt g (p.ipOff + 16) 4 != (if relayed then giaddr else [255, 255, 255, 255]) then some "ip-daddr"
   else if !headerSumOk (bytesAt g p.ipOff 20) then some "ip-checksum"
   else if be16At g p.udpOff != 67 then some "udp-sport"
   else if be16At g (p.udpOff + 2) != (if relayed then 67 else 68) then some "udp-dport"
+  else if bytesAt g (p.udpOff + 6) 2 != [0, 0] then some "udp-checksum"
   else if bytesAt g p.dhcpOff 1 != [2] then some "bootp-op"
-  else if bytesAt g (p.dhcpOff + 4) 4 != bytesAt f (p.dhcpOff + 4) 4 then some "xid"
-  else if bytesAt g (p.dhcpOff + 28) 16 != bytesAt f (p.dhcpOff + 28) 16 then some "chaddr"
+  else if bytesAt g (p.dhcpOff + 1) 2 != bytesAt f (p.dhcpOff + 1) 2 then some "htype-hlen"
+  else if bytesAt g (p.dhcpOff + 3) 1 != [0] then some "hops"
+  else if bytesAt g (p.dhcpOff + 4) 12 != bytesAt f (p.dhcpOff + 4) 12 then some "xid-secs-flags-ciaddr"
+  else if bytesAt g (p.dhcpOff + 20) 4 != sip then some "siaddr"
+  else if bytesAt g (p.dhcpOff + 24) 20 != bytesAt f (p.dhcpOff + 24) 20 then some "giaddr-chaddr"
+  else if bytesAt g (p.dhcpOff + 44) 64 != List.replicate 64 0 then some "sname-not-zeroed"
+  else if bytesAt g (p.dhcpOff + 108) 128 != List.replicate 128 0 then some "file-not-zeroed"
   else if bytesAt g (p.dhcpOff + 236) 4 != bytesAt f (p.dhcpOff + 236) 4 then some "magic"
   else if tlvEnd optsArea.length optsArea != some optsArea.length then some "options-do-not-end-at-frame-end"
   else if ipLen != 268 + optsArea.length then some "tot_len-vs-options"
